@@ -1,11 +1,15 @@
 #!/bin/bash
-# usage: sweep.sh <first-seed> <last-seed> [tier]   - runs every claimed check for several seeds on
-# the current tree and prints one line per run; used to flush false alarms.
+# usage: sweep.sh <first-seed> <last-seed> [tier] [properties...]   - runs every claimed check (or the
+# ones named) for several seeds on the current tree and prints one line per run; used to flush false alarms.
 cd "$(dirname "$0")/.."
 [ -f coq/Base/Bytes.vo ] || bash ./setup.sh >/dev/null 2>&1
 tier=${3:-quick}
-for seed in $(seq $1 $2); do
-  for p in $(python3 -c "import json;print(' '.join(c['property_id'] for c in json.load(open('MANIFEST.json'))['checks']))"); do
+first=$1; last=$2
+shift; shift; shift
+props="$*"
+[ -n "$props" ] || props=$(python3 -c "import json;print(' '.join(c['property_id'] for c in json.load(open('MANIFEST.json'))['checks']))")
+for seed in $(seq $first $last); do
+  for p in $props; do
     out=$(VERIF_SEED=$seed ./check $p --tier $tier 2>&1); rc=$?
     echo "seed=$seed $p rc=$rc $(echo "$out" | tail -1)"
     if [ $rc -ne 0 ]; then echo "$out" | grep -v "^KNOWN" | head -8; fi
